@@ -19,6 +19,7 @@ import (
 	"fmt"
 	"github.com/echovault/sugardb/internal"
 	"github.com/echovault/sugardb/internal/constants"
+	"maps"
 	"math/rand"
 	"slices"
 	"strconv"
@@ -478,6 +479,8 @@ func handleHINCRBY(params internal.HandlerFuncParams) ([]byte, error) {
 	if !ok {
 		return nil, fmt.Errorf("value at %s is not a hash", key)
 	}
+	// Work on a copy: the stored map must not change before (or without) SetValues.
+	hash = maps.Clone(hash)
 
 	if hash[field] == nil {
 		hash[field] = 0
@@ -594,6 +597,8 @@ func handleHDEL(params internal.HandlerFuncParams) ([]byte, error) {
 	if !ok {
 		return nil, fmt.Errorf("value at %s is not a hash", key)
 	}
+	// Work on a copy: the stored map must not change before (or without) SetValues.
+	hash = maps.Clone(hash)
 
 	count := 0
 
